@@ -134,7 +134,10 @@ def py_classes(source: str) -> dict:
 		base = cl.bases[0].id if cl.bases and isinstance(cl.bases[0], ast.Name) else None
 		fields = [st.target.id for st in cl.body if isinstance(st, ast.AnnAssign) and isinstance(st.target, ast.Name)]
 		methods = {st.name: _py_function(st, skip_self=True) for st in cl.body if isinstance(st, ast.FunctionDef)}
-		out[cl.name] = {'base': base, 'fields': fields, 'methods': methods, 'inits': None, 'super_args': None}
+		deco = lambda st: [ast.unparse(d) for d in st.decorator_list]  # noqa: E731
+		static = {st.name for st in cl.body if isinstance(st, ast.FunctionDef) and 'classmethod' in deco(st)}
+		props = {st.name for st in cl.body if isinstance(st, ast.FunctionDef) and 'property' in deco(st)}
+		out[cl.name] = {'base': base, 'fields': fields, 'methods': methods, 'inits': None, 'super_args': None, 'static': static, 'props': props}
 	return out
 
 
@@ -288,6 +291,15 @@ class CppParser:
 			return ('bool', False)
 		if t in ('std::abs', 'std::min', 'std::max'):
 			t = t[5:]
+		if re.fullmatch(r'[A-Za-z_]\w*::[A-Za-z_]\w*', t) and t.split('::')[0] in CLASS_NAMES and self.peek() == '(':
+			self.eat()
+			args = []
+			while self.peek() != ')':
+				args.append(self.expr())
+				if self.peek() == ',':
+					self.eat()
+			self.eat(')')
+			return self.postfix(('scall', t.split('::')[0], t.split('::')[1], args))
 		if not re.fullmatch(r'[A-Za-z_]\w*', t):
 			raise Unsupported(f'C++ operand {t!r}')
 		if self.peek() == '(':
@@ -442,6 +454,13 @@ class CppParser:
 			while self.eat() != ';':
 				pass
 			return ('raise',)
+		if t in CLASS_NAMES and re.fullmatch(r'[A-Za-z_]\w*', self.peek(1) or '') and self.peek(2) == '=':
+			cls = self.eat()
+			name = self.eat()
+			self.eat('=')
+			e = self.expr()
+			self.eat(';')
+			return ('decl', cls, name, e)
 		if t in CLASS_NAMES and re.fullmatch(r'[A-Za-z_]\w*', self.peek(1) or '') and self.peek(2) == '{':
 			cls = self.eat()
 			name = self.eat()
@@ -532,7 +551,7 @@ class CppParser:
 CLASS_NAMES: set = set()
 CLASS_HEAD = re.compile(r'^class ([A-Za-z_]\w*)(?: : public ([A-Za-z_]\w*))? \{\s*$')
 FIELD = re.compile(r'^\tpublic: (int|bool) ([A-Za-z_]\w*);\s*$')
-METHOD_HEAD = re.compile(r'^\t(int|bool|void)\s+([A-Za-z_]\w*)\((.*?)\)\s*\{\s*$')
+METHOD_HEAD = re.compile(r'^\t(static )?(int|bool|void|[A-Z]\w*)\s+([A-Za-z_]\w*)\((.*?)\)\s*\{\s*$')
 CTOR_HEAD = re.compile(r'^\t([A-Za-z_]\w*)\((.*?)\)(?: : (.*?))? \{(\})?\s*$')
 
 
@@ -565,7 +584,7 @@ def cpp_classes(text: str) -> dict:
 			i += 1
 			continue
 		name, base = m.group(1), m.group(2)
-		cls = {'base': base, 'fields': [], 'methods': {}, 'inits': None, 'super_args': None}
+		cls = {'base': base, 'fields': [], 'methods': {}, 'inits': None, 'super_args': None, 'static': set(), 'props': set()}
 		j = i + 1
 		while j < len(lines) and lines[j] != '};':
 			ln = lines[j]
@@ -585,7 +604,9 @@ def cpp_classes(text: str) -> dict:
 						k += 1
 					body_text = '{' + '\n'.join(lines[j + 1:k]) + '}'
 				if mh:
-					cls['methods'][mh.group(2)] = (_params(mh.group(3)), CppParser(tokens(body_text)).block(), mh.group(1))
+					cls['methods'][mh.group(3)] = (_params(mh.group(4)), CppParser(tokens(body_text)).block(), mh.group(2))
+					if mh.group(1):
+						cls['static'].add(mh.group(3))
 				else:
 					inits, super_args = [], None
 					if ch.group(3):
@@ -617,7 +638,7 @@ def cpp_classes(text: str) -> dict:
 	return out
 
 
-FUNC_HEAD = re.compile(r'^(int|bool|void|std::vector<int>)\s+([A-Za-z_]\w*)\((.*?)\)\s*\{\s*$')
+FUNC_HEAD = re.compile(r'^(int|bool|void|std::vector<int>|[A-Z]\w*)\s+([A-Za-z_]\w*)\((.*?)\)\s*\{\s*$')
 
 
 def cpp_functions(text: str) -> dict:
@@ -635,16 +656,7 @@ def cpp_functions(text: str) -> dict:
 		while j < len(lines) and lines[j] != '}':
 			j += 1
 		body_text = '{' + '\n'.join(lines[i + 1:j]) + '}'
-		params = []
-		for p in [x.strip() for x in plist.split(',') if x.strip()]:
-			default = None
-			if '=' in p:
-				p, d = p.split('=', 1)
-				default = CppParser(tokens(d)).expr()
-			parts = p.replace('&', ' ').split()
-			pname = parts[-1]
-			typ = 'list' if 'std::vector<int>' in parts else parts[-2]
-			params.append((pname, typ, default))
+		params = _params(plist)
 		body = CppParser(tokens(body_text)).block()
 		out[name] = (params, body, rtype)
 		i = j + 1
